@@ -377,9 +377,13 @@ func lease6(r *Run) {
 			}
 			if tp.withIANA {
 				// an IA_NA may hold several addresses (and a status code): the REQUEST carries it whole
-				ia := &dhcpv6.OptIANA{IaId: [4]byte{1, 2, 3, 4}, T1: time.Hour, T2: 2 * time.Hour}
+				// timers and lifetimes at the ends of their 32-bit range too (0xffffffff = infinity, RFC 8415 7.7)
+				secs := func(i int) time.Duration {
+					return time.Duration([]uint32{3600, 7200, 0, 1, 0xffffffff, 0xfffffffe, 0x80000000}[(int(req.TransactionID[1])+i+tp.extra)%7]) * time.Second
+				}
+				ia := &dhcpv6.OptIANA{IaId: [4]byte{1, 2, 3, 4}, T1: secs(0), T2: secs(1)}
 				for k := 0; k < len(solXid)%2+int(req.TransactionID[2])%3; k++ {
-					ia.Options.Add(&dhcpv6.OptIAAddress{IPv6Addr: net.ParseIP(fmt.Sprintf("2001:db8::%d", k+1)), PreferredLifetime: time.Hour, ValidLifetime: 2 * time.Hour})
+					ia.Options.Add(&dhcpv6.OptIAAddress{IPv6Addr: net.ParseIP(fmt.Sprintf("2001:db8::%d", k+1)), PreferredLifetime: secs(2 + k), ValidLifetime: secs(3 + k)})
 				}
 				if req.TransactionID[1]%2 == 0 {
 					ia.Options.Add(&dhcpv6.OptStatusCode{StatusCode: 0, StatusMessage: "ok"})
@@ -489,6 +493,19 @@ func lease6(r *Run) {
 				!bytes.Equal(rq.Options.OneIANA().ToBytes(), sel.Options.OneIANA().ToBytes()) {
 				r.Fail("c13-v6-request-ia-na", cs, fmt.Sprintf("the REQUEST's IA_NA %x is not the advertised one %x", rq.Options.OneIANA().ToBytes(), sel.Options.OneIANA().ToBytes()))
 			}
+			// the same on the octets that travelled: the IA_NA in the transmitted REQUEST is, octet for octet, the IA_NA of
+			// the ADVERTISE it answers (read from both datagrams without the library's option decoders)
+			if sel := firstAdvertise(w1, solXid); sel != nil {
+				for _, w := range w1 {
+					if m, err := dhcpv6.MessageFromBytes(w); err == nil && m == sel || (err == nil && bytes.Equal(m.ToBytes(), sel.ToBytes())) {
+						adv, req := rawOption6(w[4:], 3), rawOption6(reqWire[4:], 3)
+						if adv != nil && req != nil && !bytes.Equal(adv, req) {
+							r.Fail("c13-v6-request-ia-na", cs, fmt.Sprintf("the IA_NA transmitted in the REQUEST is %x, the one received in the ADVERTISE was %x", req, adv))
+						}
+						break
+					}
+				}
+			}
 			if rq.GetOneOption(dhcpv6.OptionClientID) == nil || rq.GetOneOption(dhcpv6.OptionServerID) == nil || rq.Options.OneIANA() == nil {
 				r.Fail("c13-v6-request-fields", cs, "REQUEST lacks client id, server id or IA_NA")
 			}
@@ -509,6 +526,22 @@ func firstAdvertise(ws [][]byte, xid []byte) *dhcpv6.Message {
 		if m.MessageType == dhcpv6.MessageTypeReply {
 			return nil
 		}
+	}
+	return nil
+}
+
+
+// rawOption6: the value of the first option with the given code in a DHCPv6 option area, by a plain TLV walk
+func rawOption6(area []byte, code int) []byte {
+	for len(area) >= 4 {
+		c, l := int(area[0])<<8|int(area[1]), int(area[2])<<8|int(area[3])
+		if 4+l > len(area) {
+			return nil
+		}
+		if c == code {
+			return area[4 : 4+l]
+		}
+		area = area[4+l:]
 	}
 	return nil
 }
